@@ -176,6 +176,12 @@ def labels_for(op, pos, lab):
     k, a = op[0], S.arity(op)
     if k == "var":
         return None if (len(op) > 1 and op[1] == "unlabelled") else "V%d" % pos
+    if lab == 3:           # names outside ASCII
+        if k in S.WORD_KINDS:
+            return "\u03c9%d\u27e8{}\u27e9" % pos
+        return "\u03b1%d_" % pos + "\u00b7".join(["{}"] * a) + "\u00e9"
+    if lab == 4:           # the empty label / a label without placeholders where the shape has a single variable per index set
+        return ""
     if lab == 2:           # escaped braces, blanks
         if k in S.WORD_KINDS:
             return "w%d_{{{}}}" % pos
@@ -430,6 +436,15 @@ def check_group(ctx, T, model, rec, r):
         if a == 0 and isinstance(lab, list) and len(lab) == 1:
             lab = lab[0]
         rec.names.append(lab)
+        tmpl = getattr(rec, "template", None)
+        if tmpl is not None and kind != "variable" and op[0] not in S.WORD_KINDS:
+            try:
+                want = tmpl.format(*idx)
+            except (IndexError, KeyError, ValueError):
+                want = None
+            if want is not None and lab != want:
+                return bad("label-not-the-template-given", "created with label=%r: label%r is %r, the template gives %r" % (tmpl, idx, lab, want))
+            ctx.count("labels_checked_against_the_template")
 
     # full wildcard
     full = [()] + ([(None,) * a] if a >= 1 else [])
@@ -693,6 +708,7 @@ def apply_op(ctx, T, model, op, pos, lab, r, where):
     if n:
         model.covered = model.numvar
     if rec.g is not None:
+        rec.template = labels_for(op, pos, lab)
         if not check_group(ctx, T, model, rec, r):
             return False
         if k == "var":
@@ -768,7 +784,7 @@ def case_two_formulas(ctx, cls, rseed, count):
         objs = [(Target(cls), Shadow()), (Target(cls), Shadow())]
         done = []
         ok = True
-        lab = r.choice([0, 0, 1, 2])
+        lab = r.choice([0, 0, 1, 2, 3])
         for pos in range(r.randint(2, 9)):
             k = r.randrange(2)
             T, model = objs[k]
@@ -874,7 +890,7 @@ def case_sampled(ctx, cls, rseed, count, minlen, maxlen):
                 if how in ("move", "add") and free:
                     E2.append(r.choice(free))
                 ops.insert(r.randint(i + 1, len(ops)), ["graph", n, [list(e) for e in E2], "reuse"])
-        run_history(ctx, cls, ops, r.choice([0, 0, 1, 2]), r)
+        run_history(ctx, cls, ops, r.choice([0, 0, 1, 2, 3, 3, 4]), r)
 
 
 def case_large(ctx, cls, rseed):
@@ -1048,7 +1064,7 @@ def workload(tier, seed):
     nA = len(ALPHABET)
     for cls in ("CNF", "OPB", "VM"):
         yield "enumerated", {"cls": cls, "alphabet": "full", "prefix": [], "lab": 0}
-        for lab in (1, 2):
+        for lab in (1, 2, 3, 4):
             yield "enumerated", {"cls": cls, "alphabet": "full", "prefix": [], "lab": lab}
         for i in range(nA):
             yield "enumerated", {"cls": cls, "alphabet": "full", "prefix": [i], "lab": 0}
